@@ -1128,10 +1128,10 @@ func (g *c17Gen) specialsFor(i int) []c17Kind {
 		sp = append(sp, c17Kind{code: c17kMount, s: m})
 	}
 	// a collection mounted inside a mounted collection: at a new name below an existing directory,
-	// at a new name at the top, (thorough) deeper and as excluded / single-file / empty inner mounts
+	// at a new name at the top, (thorough) deeper and as excluded / single-file inner mounts (a mount inside an EXCLUDED mount is not generated: the statement does not say whether it belongs to the output)
 	nested := []string{"A>Bp@s d/new", "A>E@new", "Bp>A@q/n n"}
 	if g.thorough {
-		nested = append(nested, "A>Ax@s d/new", "A>Bf@s d/t/new", "A>Bp@new/er", "Ax>Bp@s d/new")
+		nested = append(nested, "A>Ax@s d/new", "A>Bf@s d/t/new", "A>Bp@new/er")
 	}
 	// ... and at a directory the outer collection HAS (the inner mount hides the outer content there)
 	nested = append(nested, "A>Bp@s d/t")
